@@ -171,6 +171,17 @@ CHECKS = {
              "before/after; archives whose members are all benign must be extracted with exact contents.",
         design_ref="DESIGN.md section 5 C16",
         note="Unix only; no symlinks in the output directory; names up to 2 (quick) / 3 (thorough) parts."),
+    "C19": dict(
+        technique="TLA+ KeyDerive term algebra (TLC: composition law, determinism) enumerating every (seed, path list, split); "
+                  "each term computed by the real mlar binary and by an independent implementation of the documented algorithm",
+        text="TLC enumerates all derivation terms over seeds {empty, ascii, unicode, 10 kB} and path lists up to length 3-4 "
+             "(repeats and empty paths included) with every split point; the real `mlar keygen --seed` / `keyderive` is run "
+             "for each (one invocation, and two invocations for the composition law) and the key files are compared "
+             "byte for byte with a from-scratch implementation of README.md (SHA-512, ChaCha20, HKDF-SHA512, X25519); the "
+             "public file must match the private one.",
+        design_ref="DESIGN.md section 5 C19",
+        note="Known finding D21 (HKDF input is the unclamped stored secret, the documentation says clamped) is carved "
+             "out by signature; every other deviation is a violation."),
 }
 
 NOT_YET = "check not built yet in this round (planned in DESIGN.md section 9); not claimed until its machinery exists"
